@@ -11,11 +11,17 @@ Definition value := list N.                       (* a plain int is [v]; a whenA
 
 Inductive cstate := Pending | Fulfilled (v : value) | Rejected (e : N).   (* e = 0: null exception_ptr *)
 
+Inductive pmode := MPending | MResolved | MRejected.
+Definition inner_exc : N := 77.                  (* what an already rejected returned promise carries *)
+
 Inductive kind :=
 | KVal (dst : nat)              (* callback returns a value: settles the derived promise dst *)
 | KVoid (dst : nat)             (* callback returns nothing: dst is never fulfilled (only a rethrown rejection settles it) *)
 | KAll (d : nat) (idx : nat)    (* the continuation whenAll attaches to input idx *)
-| KAny (d : nat).               (* the continuation whenAny attaches to an input *)
+| KAny (d : nat)                (* the continuation whenAny attaches to an input *)
+| KProm (dst inner : nat) (m : pmode)   (* callback returns a promise (core inner): pending, already fulfilled or
+                                           already rejected when returned; dst takes inner's outcome *)
+| KFwd (dst : nat).             (* the Chainer / rejection lambda finishResolve attaches to the returned promise *)
 
 Inductive handler := HThrow | HSwallow.
 
@@ -62,7 +68,18 @@ Definition settle (s : pst) (p : nat) (x : cstate) : pst :=
                                | Rejected e => TRej k e
                                | Pending => TRej k 0%N end) (creqs (core_at s p))).
 
-Definition f_apply (v : value) : value := match v with [x] => [(x + 1)%N] | _ => v end.
+Definition f_apply (v : value) : value := match v with [x] => [(x + 1)%N] | [] => [1%N] | _ => v end.
+
+(* then() called while a continuation runs (finishResolve on the returned promise): continuation k,
+   which already exists, is remembered by core p and, if p is settled, run at once *)
+Definition attach_now (s : pst) (p k : nat) : pst :=
+  let cr := core_at s p in
+  let s1 := mkPst (setn (cores s) p (mkCore (cs cr) (creqs cr ++ [k]))) (conts s) (datas s) (stack s) (plog s) in
+  match cs cr with
+  | Fulfilled v => push_tasks s1 [TRes k v]
+  | Rejected e => push_tasks s1 [TRej k e]
+  | Pending => s1
+  end.
 
 (* one task *)
 Definition run_task (s : pst) (t : task) : pst :=
@@ -88,6 +105,11 @@ Definition run_task (s : pst) (t : task) : pst :=
             let w := data_at s1 d in
             if wdone w then s1
             else settle (set_data s1 d (mkW (wdst w) (total w) (nres w) (results w) true)) (wdst w) (Fulfilled v)
+        | KProm dst inner m =>
+            let s2 := add_log s1 (ERes k v) in
+            let x := match m with MPending => Pending | MResolved => Fulfilled (f_apply v) | MRejected => Rejected inner_exc end in
+            attach_now (set_state s2 inner x) inner (Nat.pred k)
+        | KFwd dst => settle s1 dst (Fulfilled v)
         end
   | TRej k e =>
       let c := cont_at s k in
@@ -98,15 +120,11 @@ Definition run_task (s : pst) (t : task) : pst :=
         match ck c with
         | KVal dst =>
             let s2 := add_log s1 (ERej k e) in
-            match ch c with
-            | HThrow => settle s2 dst (Rejected e)
-            | HSwallow =>     (* the derived promise stays pending; its continuations are told of a
-                                 rejection whose exception is the derived core's (null) one *)
-                push_tasks s2 (map (fun r => TRej r 0%N) (creqs (core_at s2 dst)))
-            end
-        | KVoid dst =>
+            match ch c with HThrow => settle s2 dst (Rejected e) | HSwallow => s2 end   (* swallowed: dst stays pending *)
+        | KVoid dst | KProm dst _ _ =>
             let s2 := add_log s1 (ERej k e) in
             match ch c with HThrow => settle s2 dst (Rejected e) | HSwallow => s2 end
+        | KFwd dst => settle s1 dst (Rejected e)
         | KAll d _ | KAny d =>
             let w := data_at s1 d in
             if wdone w then s1     (* later outcomes are ignored *)
@@ -127,7 +145,12 @@ Fixpoint drain (fuel : nat) (s : pst) : pst :=
 Inductive pop :=
 | PNew                                  (* a new pending promise; its id is the next core index *)
 | PThen (src : nat) (value_returning : bool) (h : handler)   (* then(): creates continuation (+ derived promise) *)
+| PThenP (src : nat) (m : pmode) (h : handler)   (* then() with a callback returning a promise: takes two promise ids
+                                                     (derived, returned) and two continuation ids (the chainer, the user's) *)
+| PInner (k : nat) (ok : bool) (v : N)          (* settle the promise continuation k's callback returned (no-op unless
+                                                     k is a pending-mode PThenP continuation whose callback has run) *)
 | PResolve (p : nat) (v : N)
+| PResolveV (p : nat)                            (* resolve a Promise<void> *)
 | PReject (p : nat) (e : N)
 | PAll (inputs : list nat)
 | PAny (inputs : list nat).
@@ -156,9 +179,31 @@ Definition exec (s : pst) (o : pop) : pst :=
   | PThen src vr h =>
       let dst := length (cores s) in
       attach (new_core s) src (mkC (if vr then KVal dst else KVoid dst) h 0 0)
+  | PThenP src m h =>
+      let dst := length (cores s) in
+      let s1 := new_core (new_core s) in
+      (* the chainer continuation takes the first index; it is attached only when the callback runs *)
+      let s2 := mkPst (cores s1) (conts s1 ++ [mkC (KFwd dst) HSwallow 0 0]) (datas s1) (stack s1) (plog s1) in
+      attach s2 src (mkC (KProm dst (S dst) m) h 0 0)
+  | PInner k ok v =>
+      match ck (cont_at s k) with
+      | KProm _ inner MPending =>
+          if Nat.leb 1 (rc (cont_at s k)) then
+            match cs (core_at s inner) with
+            | Pending => drain big_fuel (settle s inner (if ok then Fulfilled [v] else Rejected v))
+            | _ => add_log s EErr
+            end
+          else s
+      | _ => s
+      end
   | PResolve p v =>
       match cs (core_at s p) with
       | Pending => drain big_fuel (settle s p (Fulfilled [v]))
+      | _ => add_log s EErr
+      end
+  | PResolveV p =>
+      match cs (core_at s p) with
+      | Pending => drain big_fuel (settle s p (Fulfilled []))
       | _ => add_log s EErr
       end
   | PReject p e =>
